@@ -693,6 +693,16 @@ class CallMixin:
             return [('ok', st, sv_bool(self.as_seq(st, a) == self.as_seq(st, b)))]
         return [('ok', st, sv_bool(self.identical(st, a, b)))]
 
+    def b_as_dict(self, st, args):
+        """spec-only: read a reference through the dict model of the heap (the clause is provable only if the heap holds a modelled dict there)"""
+        v = args.pos[0]
+        return [('ok', st, v if v.k == 'ref' and v.t in ('dict', 'kwdict') else sv_ref(self.box(st, v), 'dict'))]
+
+    def b_as_list(self, st, args):
+        """spec-only: read a reference through the list model of the heap"""
+        v = args.pos[0]
+        return [('ok', st, v if v.k == 'ref' and v.t == 'list' else sv_ref(self.box(st, v), 'list'))]
+
     def b_subseq(self, st, args):
         """spec-only: s[lo:hi] for 0 <= lo <= hi <= len(s) (no clamping)"""
         s_, lo, hi = args.pos
